@@ -35,7 +35,9 @@ Definition sa_tgt (c : sa_clause) : sa_target :=
 
 (* ---- the clause as rendered: names instead of column objects ---- *)
 Inductive rtarget : Type := RNone | RCols (names : list Z) (w : option pred) | RConstraint (n : Z).
-Inductive lhs : Type := LName (n : Z) | LQual (n : Z).
+(* SET item: a matched table column (value parenthesised by self_group()); an unmatched string key and an
+   unmatched Column object (value rendered as is, the latter table-qualified) *)
+Inductive lhs : Type := LName (n : Z) | LAdd (n : Z) | LQual (n : Z).
 Inductive rclause : Type :=
   | RNothing (t : rtarget)
   | RUpdate (t : rtarget) (sets : list (lhs * expr)) (w : option pred).
@@ -93,7 +95,7 @@ Fixpoint asm_cols (cols : list coldesc) (i : nat) (sp : list (skey * expr))
 (* "Additional column names not matching any column keys": rendered after the matched ones *)
 Definition leftover (cols : list coldesc) (sp : list (skey * expr)) : list (lhs * expr) :=
   map (fun kv => match fst kv with
-                 | KStr s => (LName s, snd kv)
+                 | KStr s => (LAdd s, snd kv)
                  | KCol j => (LQual (col_name cols j), snd kv)
                  end) sp.
 
@@ -168,14 +170,18 @@ Definition r_target (cols : list coldesc) (t : rtarget) : list tok :=
       match w with Some p => TKw KWHERE :: r_pred cols false p | None => [] end
   end.
 
-Definition r_lhs (l : lhs) : list tok :=
-  match l with LName n => [TId n] | LQual n => [TId ID_T; TDot; TId n] end.
+Definition r_item (cols : list coldesc) (exs : nat) (k : lhs) (v : expr) : list tok :=
+  match k with
+  | LName n => TId n :: TEq :: r_value cols exs v
+  | LAdd n => TId n :: TEq :: r_expr cols true exs v
+  | LQual n => TId ID_T :: TDot :: TId n :: TEq :: r_expr cols true exs v
+  end.
 
 Fixpoint r_sets (cols : list coldesc) (exs : nat) (l : list (lhs * expr)) : list tok :=
   match l with
   | [] => []
-  | [(k, v)] => r_lhs k ++ TEq :: r_value cols exs v
-  | (k, v) :: rest => r_lhs k ++ TEq :: r_value cols exs v ++ TComma :: r_sets cols exs rest
+  | [(k, v)] => r_item cols exs k v
+  | (k, v) :: rest => r_item cols exs k v ++ TComma :: r_sets cols exs rest
   end.
 
 Definition r_clause (cols : list coldesc) (c : rclause) : list tok :=
